@@ -685,9 +685,9 @@ theorem C16_gen_transformation :
     Gen.C16.expandDims = "prepend-axes-while-ndim<n" ∧
     Gen.C16.applyGuard = ["NotEq", "rotation", "IndexError"] ∧
     Gen.C16.applyCopiesInput = true ∧ Gen.C16.applyReshapesBack = true ∧
-    Gen.C16.applyInput = ["coord(atoms)", "_reshape_to_3d(mobile_coord)"] ∧
-    Gen.C16.reshapeLadder = ["Lt 2 raise:ValueError", "Eq 2 returncoord[np.newaxis,...]", "Eq 3 returncoord",
-                             "else raise:ValueError"] ∧
+    Gen.C16.applyInput = ["coord(atoms)", "RESHAPE3D(mobile_coord)"] ∧
+    Gen.C16.reshapeLadder = ["0:raise:ValueError", "1:raise:ValueError", "2:newaxis", "3:identity",
+                             "4:raise:ValueError", "5:raise:ValueError"] ∧
     Gen.C16.matrixSize = 4 ∧ Gen.C16.matrixCount = "self.rotation.shape[0]" ∧ Gen.C16.identityDtype = "float" ∧
     Gen.C16.multiMatmul = "transpose(matmul(matrices, transpose(vectors,(0,2,1))),(0,2,1))" := by
   decide
@@ -752,7 +752,7 @@ theorem C16_gen_homologs :
 /-- `rmsd = sqrt(mean(|subject − reference|², axis=-1))` with a 2-d reference (else `TypeError`);
 `centroid = mean over the atom axis` (`centroid`, `ssd`). -/
 theorem C16_gen_compare :
-    Gen.C16.rmsdExpr = "np.sqrt(np.mean(_sq_euclidian(reference,subject),axis=-1))" ∧
+    Gen.C16.rmsdExpr = "np.sqrt(np.mean(SQ_EUCLID(reference,subject),axis=-1))" ∧
     Gen.C16.sqEuclidGuard = ["coord(reference).ndim!=2", "TypeError"] ∧
     Gen.C16.sqEuclidDiff = "coord(subject)-coord(reference)" ∧
     Gen.C16.centroidExpr = "np.mean(coord(atoms),axis=-2)" := by
